@@ -3,7 +3,9 @@
    The functions gl_* / ext*_mul are REGENERATED from /repo on every run (tools/rs2v.py), in the
    checked monad: [= Some r] also says that no checked operation overflowed and no assume failed. *)
 From Coq Require Import ZArith List.
-From Verif Require Import Base.Mach Gen.FieldConsts Gen.GoldilocksImpl Proofs.Goldilocks.
+From Coq Require Import Znumtheory.
+From Verif Require Import Base.Mach Base.Field Gen.FieldConsts Gen.GoldilocksImpl Proofs.Goldilocks
+  Proofs.GoldilocksExt Proofs.GoldilocksInv Model.Fp Proofs.FpFieldPrime.
 Open Scope Z_scope.
 
 Theorem C14_add_correct : forall x y, u64 x -> u64 y ->
@@ -67,6 +69,53 @@ Proof. exact sub_canonical_u64_refuted_without_precondition. Qed.
 Theorem C14_from_noncanonical_i64_correct : forall n, i64 n ->
   exists r, gl_from_noncanonical_i64 n = Some r /\ 0 <= r < ORDER /\ r mod ORDER = n mod ORDER.
 Proof. exact from_noncanonical_i64_correct. Qed.
+
+
+(* ---- inversion: the 72-multiplication addition chain is x^(P-2); with primality of P
+   (Proofs/Primality.v: Lucas certificate, witness 7) it is the inverse *)
+Theorem C14_order_prime : prime ORDER.
+Proof. exact P_prime. Qed.
+
+Theorem C14_try_inverse_is_pow : forall x, u64 x -> x mod ORDER <> 0 ->
+  exists r, gl_try_inverse x = Some (Some r) /\ u64 r /\ r mod ORDER = (x ^ (ORDER - 2)) mod ORDER.
+Proof. exact try_inverse_is_pow. Qed.
+
+Theorem C14_inverse_correct : forall x, u64 x -> x mod ORDER <> 0 ->
+  exists r, gl_try_inverse x = Some (Some r) /\ u64 r /\ (r * x) mod ORDER = 1.
+Proof. exact inverse_correct. Qed.
+
+Theorem C14_try_inverse_zero : forall x, u64 x -> x mod ORDER = 0 -> gl_try_inverse x = Some None.
+Proof. exact try_inverse_zero. Qed.
+
+(* the canonical-residue instance used by every protocol-level model is a field *)
+Theorem C14_Fp_field : FieldLaws Fp.
+Proof. exact FpLaws. Qed.
+
+(* ---- extension fields: delayed-reduction products = schoolbook product mod X^D - W, for every
+   representation; Some also says: the u32 high limb never overflows, u160_times_7's borrow
+   subtraction never underflows, reduce160's precondition holds at every call site *)
+Theorem C14_ext2_mul_correct : forall a0 a1 b0 b1, u64 a0 -> u64 a1 -> u64 b0 -> u64 b1 ->
+  exists c0 c1, ext2_mul (a0, a1) (b0, b1) = Some (c0, c1) /\
+    u64 c0 /\ c0 mod ORDER = (a0 * b0 + EXT2_W * (a1 * b1)) mod ORDER /\
+    u64 c1 /\ c1 mod ORDER = (a0 * b1 + a1 * b0) mod ORDER.
+Proof. exact ext2_mul_correct. Qed.
+
+Theorem C14_ext4_mul_correct : forall a0 a1 a2 a3 b0 b1 b2 b3, u64 a0 -> u64 a1 -> u64 a2 -> u64 a3 -> u64 b0 -> u64 b1 -> u64 b2 -> u64 b3 ->
+  exists c0 c1 c2 c3, ext4_mul (a0, a1, a2, a3) (b0, b1, b2, b3) = Some (c0, c1, c2, c3) /\
+    u64 c0 /\ c0 mod ORDER = (a0 * b0 + EXT4_W * (a1 * b3 + a2 * b2 + a3 * b1)) mod ORDER /\
+    u64 c1 /\ c1 mod ORDER = (a0 * b1 + a1 * b0 + EXT4_W * (a2 * b3 + a3 * b2)) mod ORDER /\
+    u64 c2 /\ c2 mod ORDER = (a0 * b2 + a1 * b1 + a2 * b0 + EXT4_W * (a3 * b3)) mod ORDER /\
+    u64 c3 /\ c3 mod ORDER = (a0 * b3 + a1 * b2 + a2 * b1 + a3 * b0) mod ORDER.
+Proof. exact ext4_mul_correct. Qed.
+
+Theorem C14_ext5_mul_correct : forall a0 a1 a2 a3 a4 b0 b1 b2 b3 b4, u64 a0 -> u64 a1 -> u64 a2 -> u64 a3 -> u64 a4 -> u64 b0 -> u64 b1 -> u64 b2 -> u64 b3 -> u64 b4 ->
+  exists c0 c1 c2 c3 c4, ext5_mul (a0, a1, a2, a3, a4) (b0, b1, b2, b3, b4) = Some (c0, c1, c2, c3, c4) /\
+    u64 c0 /\ c0 mod ORDER = (a0 * b0 + EXT5_W * (a1 * b4 + a2 * b3 + a3 * b2 + a4 * b1)) mod ORDER /\
+    u64 c1 /\ c1 mod ORDER = (a0 * b1 + a1 * b0 + EXT5_W * (a2 * b4 + a3 * b3 + a4 * b2)) mod ORDER /\
+    u64 c2 /\ c2 mod ORDER = (a0 * b2 + a1 * b1 + a2 * b0 + EXT5_W * (a3 * b4 + a4 * b3)) mod ORDER /\
+    u64 c3 /\ c3 mod ORDER = (a0 * b3 + a1 * b2 + a2 * b1 + a3 * b0 + EXT5_W * (a4 * b4)) mod ORDER /\
+    u64 c4 /\ c4 mod ORDER = (a0 * b4 + a1 * b3 + a2 * b2 + a3 * b1 + a4 * b0) mod ORDER.
+Proof. exact ext5_mul_correct. Qed.
 
 (* non-vacuity: a double-carry operand pair reaches the assume branch of Add and satisfies it *)
 Example C14_add_double_carry :
